@@ -107,8 +107,8 @@ class WalkStream(Stream):
             else:
                 excluded.append([rng.choice(NAMES)])   # may not exist
         return {"tree": tree, "root_name": rng.choice(["root", "build", "venv", "proj"]), "excluded": excluded,
-                "markers": user_markers, "parallelism": rng.choice([1, 1, 2, 8]), "full": rng.random() < 0.15,
-                "same_name": rng.random() < 0.2}
+                "markers": user_markers, "parallelism": rng.choice([1, 1, 2, 8]), "full": rng.random() < 0.2,
+                "same_name": rng.random() < 0.2, "symlink_root": rng.random() < 0.25}
 
     def _root(self, case):
         from rv.core import digest
@@ -116,6 +116,13 @@ class WalkStream(Stream):
         root = os.path.join(base, case["root_name"])
         if not os.path.exists(root):
             materialise(case["tree"], root, case.get("same_name", False))
+        if case.get("symlink_root"):
+            # the tree is reached through a symbolic link (a checkout linked into a workspace); excluded paths are spelled
+            # through the same link
+            real = os.path.join(base, "real-location")
+            if not os.path.exists(real):
+                os.rename(root, real)
+                os.symlink(real, root)
         return base, root
 
     def impl(self, case):
@@ -223,6 +230,8 @@ class WalkStream(Stream):
             fl.append("special-dir")
         if case["excluded"]:
             fl.append("excluded-path")
+        if case.get("symlink_root"):
+            fl.append("root-reached-through-a-symlink")
         if case.get("same_name") and r.get("mode") == "full":
             fl.append("several-roots-hold-the-same-project-and-version")
         if any(e is None for e in case["excluded"]):
